@@ -387,14 +387,23 @@ def _check_repro(repo, res, cls):
                 me = C09.model(names)
                 me.attrs.update(dict(_x0=NumArr([10.0, 20.0]), _t0=0.5, _odeSolution=None, _odeTime=None, _odeOutput=None, _intName=None))
 
-                def integ(me_, tt, full_output=True, **k):
+                made = []
+
+                def odeint_wrapper(me_, x0, tt, full_output=False, **k):
+                    # ode_utils.integrate (the odeint wrapper, decided by C02): a new array per call, a function of the parameter
+                    # values current at the call; the model's own _integrate / integrate around it are interpreted from their source
                     pv = [float(v) for v in me_.attrs["_paramValue"]]
                     sol = NumArr([[pv[1] * float(tk), pv[0] + pv[2]] for tk in tt])
+                    made.append(sol.tolist())
+                    return (sol, {"message": "ok"}) if full_output else sol
+
+                def integ2(me_, tt, full_output=True, **k):
+                    sol = odeint_wrapper(me_, None, tt)
                     me_.attrs["_odeSolution"], me_.attrs["_odeOutput"] = sol, {"message": "ok"}
                     return (sol, {"message": "ok"}) if full_output else sol
                 summ = dict(num_summaries())
                 summ.update(C09.helper_summaries(names))
-                summ.update({"rv_frozen.rvs": rvs, "Model._integrate": integ, "Model._integrate2": integ})
+                summ.update({"rv_frozen.rvs": rvs, "ode_utils.integrate": odeint_wrapper, "Model._integrate2": integ2})
                 types = {"Number": lambda v: isinstance(v, (int, float)) and not isinstance(v, bool), "np.ndarray": lambda v: isinstance(v, NumArr)}
                 types.update(C09.TYPES)
                 types["np.ndarray"] = lambda v: isinstance(v, NumArr)
@@ -413,14 +422,30 @@ def _check_repro(repo, res, cls):
                     if kind != "return":
                         res.violated("R-REPRO", f, tag, "assigning random parameters raises %s" % (out,), node=f.node)
                         continue
+                    mean_problem = None
                     for rep, seed_pos in enumerate((100, 100, 100)):
                         stream["k"] = seed_pos                      # np.random.seed(same): the global stream is back at the same point
+                        del made[:]
                         kind, out = fresh(f.module).run_function(f.node, {"t": NumArr([1.0, 2.0, 3.0]), "iteration": iteration, "parallel": False, "full_output": True})
                         if kind != "return":
                             outs.append(("raise", out))
                             break
                         Y, runs = out if isinstance(out, tuple) and len(out) == 2 else (out, None)
                         outs.append((Y.tolist() if isinstance(Y, NumArr) else Y, [r.tolist() if isinstance(r, NumArr) else r for r in runs] if runs is not None else None))
+                        # the runs handed back are integrations as the integrator produced them, and the mean is their mean
+                        got_runs = outs[-1][1]
+                        if mean_problem is None and isinstance(got_runs, list) and len(got_runs) == iteration and len(made) >= iteration:
+                            cands = [made[len(made) - iteration:], made[:iteration]]
+                            if not any(got_runs == c_ for c_ in cands):
+                                k_ = next((i for i, (a_, b_) in enumerate(zip(got_runs, cands[0])) if a_ != b_), 0)
+                                mean_problem = "run %d of %d handed back is %s, the integration produced %s: a returned run was overwritten after it was computed" % (
+                                    k_ + 1, iteration, got_runs[k_], cands[0][k_])
+                            else:
+                                c_ = next(c_ for c_ in cands if got_runs == c_)
+                                want = [[sum(m[r][cc] for m in c_) / len(c_) for cc in range(len(c_[0][0]))] for r in range(len(c_[0]))]
+                                gotY = outs[-1][0]
+                                if not (isinstance(gotY, list) and len(gotY) == len(want) and all(isinstance(a_, list) and len(a_) == len(b_) and all(abs(x_ - y_) < 1e-9 for x_, y_ in zip(a_, b_)) for a_, b_ in zip(gotY, want))):
+                                    mean_problem = "the mean reported is %s, the element-wise mean of the returned runs is %s" % (gotY, want)
                 except Undecided as e:
                     res.undecided("R-REPRO", f, tag, "outside the modelled subset: %s" % e)
                     continue
@@ -437,6 +462,10 @@ def _check_repro(repo, res, cls):
                         if not (0.125 * 101 + 0.5 - 1e-9 <= slope <= 0.125 * (101 + 2 * iteration + 2) + 0.5 + 1e-9):
                             problems.append("a returned run was integrated with the parameter value %s, which was not drawn after the seed point" % slope)
                             break
+                if not (outs and outs[-1][0] == "raise"):
+                    res.check(mean_problem is None, "R-MEAN", f, "end-to-end(%s,iteration=%d)" % (form, iteration),
+                              "with the model's own integrate / _integrate interpreted: the runs handed back are the integrations as produced and the mean is their element-wise mean",
+                              mean_problem or "", node=f.node)
                 res.check(not problems, "R-REPRO", f, tag, "the call repeated after rewinding the random stream returns the same mean and the same runs, each run from a value drawn inside the call",
                           "; ".join(problems[:2]), node=f.node)
 
